@@ -154,6 +154,10 @@ class InstrumentedJob:
         self.world.events.append(('stop', self.serial))
 
 
+LIGHT_SETS = {'large': None, 'none': (), 'small': (('light_1', 'a', 'b'), ('light_2', 'group', 'loc'),
+                                                    ('light_0', 'group', 'loc'))}
+
+
 class World:
     """one WebApp over one manifest in a scratch directory, with everything observed"""
 
@@ -182,6 +186,13 @@ class World:
         os.chdir(self.dir)
         env.settings.using(dict(env.base_settings, script_path=script_path)).configure()
         env.ScriptJob.from_file = staticmethod(self._from_file)
+        # the lights on the network: the fake API's large set, three lights, or none at all (the
+        # status and capture pages have to render whatever is there)
+        from bardolph.controller import light_set
+        from bardolph.fakes import fake_light_api
+        specs = LIGHT_SETS[getattr(env, 'lights', 'large')]
+        (fake_light_api.using_large_set() if specs is None else fake_light_api.using(specs)).configure()
+        light_set.configure()
         self.app = env.web_app.WebApp()
         env.injection.bind_instance(self.app).to(env.i_web.WebApp)
         jc = self.app._jobs
@@ -1029,6 +1040,13 @@ def main():
         model_cases = []
         reported = set()
         for ci, (m, inputs) in enumerate(cases):
+            # the hand-made cases are run over each light population, every fifth random one with
+            # no lights and every seventh with three
+            env.lights = 'none' if ci % 5 == 4 else 'small' if ci % 7 == 6 else 'large'
+            if replay is not None and 'lights' in replay:
+                env.lights = replay['lights']
+            stats.setdefault('light_populations', {}).setdefault(env.lights, 0)
+            stats['light_populations'][env.lights] += 1
             steps, world = run_case(env, m, inputs, ua_seed=ci)
             found = Oracle(m, steps, world).run()
             stats['cases'] += 1
@@ -1054,7 +1072,7 @@ def main():
                     continue
                 reported.add(sig)
                 sm, si = shrink(env, m, inputs[:k + 1], sig)
-                chk.violation(sig, what, {'manifest': sm, 'inputs': si, 'signature': sig,
+                chk.violation(sig, what, {'manifest': sm, 'inputs': si, 'signature': sig, 'lights': env.lights,
                                           'found_in': {'manifest': m, 'inputs': inputs, 'step': k}})
             model_cases.append((m, inputs, steps, world.script_path))
         check_queue_file(chk, env)
